@@ -13,6 +13,7 @@ int opt_has(const shard_t *s, const char *name);
 #define GB_MAX (1L << 19)
 mp_ptr gb_get(int slot, mp_size_t n, int end);
 void gb_fill(mp_ptr p, mp_size_t n);     /* poison */
+char *cbuf_end(size_t bytes);            /* a poisoned byte buffer of exactly that size ending at an inaccessible page (slot GB_SLOTS-1) */
 
 void drv_setz(mpz_ptr z, const char *hex);            /* sets z from a hex numeral without using the library's parser */
 void drv_rndz(mpz_ptr z, int limbs, int kind, int neg);
